@@ -1195,6 +1195,10 @@ class SortDFS(C02Graph):
     fin = 3
     nodes, refs = 3, 4
 
+    def __init__(self, reverse=False):
+        self.reverse = reverse                 # reverse=False: the call of get_execution_order (parents first); reverse=True: the post-order itself
+        self.label = 'dfs-reverse' if reverse else 'dfs'
+
     def env(self, vc):
         return _dfs_env()
 
@@ -1203,7 +1207,7 @@ class SortDFS(C02Graph):
         s.G.__class__ = DGraph
         vc.axioms = s.th.name_order_axioms()
         s.r = NS(dfs_roles(vc.repo))
-        return s, (s.G,), {}
+        return s, (s.G,), ({'reverse': True} if self.reverse else {})
 
     def requires(self, s):
         return [s.G.wf()]
@@ -1221,7 +1225,9 @@ class SortDFS(C02Graph):
         return [('order.n >= 0', order.n >= 0),
                 ('every entry of order is explored, at its recorded position', forall_range(0, order.n, lambda i: z3.And(explored.mem(at(i)), idx(at(i)) == i), 'i')),
                 ('every explored node is listed in order', th.forall_nodes(lambda x: z3.Implies(explored.mem(x), z3.And(idx(x) >= 0, idx(x) < order.n, at(idx(x)) == x)))),
-                ('explored nodes are seen nodes of G', th.forall_nodes(lambda x: z3.And(z3.Implies(explored.mem(x), seen.mem(x)), z3.Implies(seen.mem(x), g.node(x)))))]
+                ('explored nodes are seen nodes of G', th.forall_nodes(lambda x: z3.And(z3.Implies(explored.mem(x), seen.mem(x)), z3.Implies(seen.mem(x), g.node(x))))),
+                ('POST-ORDER: every successor of an explored node is explored and was appended to order before it',
+                 th.forall_nodes(lambda x, y: z3.Implies(z3.And(explored.mem(x), g.edge(x, y)), z3.And(explored.mem(y), idx(y) < idx(x))), 2))]
 
     def _inv0(self, s, l):
         r = s.r
@@ -1244,7 +1250,30 @@ class SortDFS(C02Graph):
     def _inv2(self, s, l):
         g, r = s.G0, s.r
         nn = _as_list(getattr(l, r.new))
-        return [('length >= 0', nn.n >= 0), ('the new nodes are nodes of G', forall_range(0, nn.n, lambda i: g.node(nn.elt(i).t), 'i'))]
+        explored = getattr(l, r.explored)
+        it = l.it
+        return [('length >= 0', nn.n >= 0), ('the new nodes are nodes of G', forall_range(0, nn.n, lambda i: g.node(nn.elt(i).t), 'i')),
+                ('as long as no new node was found, every successor looked at so far is explored',
+                 z3.Implies(nn.n == 0, forall_range(0, it.index, lambda j: explored.mem(it.elt(j).t), 'j')))]
+
+    def _exit2(self, s, l):
+        """ghost steps at the normal exit of the successor loop (each proved as an obligation of its own, then used):
+        (a) sorted()'s contract for THIS sorted() call - every member of the sorted set occurs in the sorted list;
+        (b) hence: no new node found => EVERY successor of the node on top of the stack (edges of G, not entries of a list) is explored"""
+        th, g, r, vc = s.th, s.G0, s.r, s.vc
+        it = l.it
+        cs = [c for c in vc.libcalls.get('sorted', []) if c['out'].elt is it.elt and getattr(c['src'], 'idx', None) is not None]
+        if not cs:
+            raise OutOfSubset('the successor loop does not iterate over sorted(<set of names>)')
+        c = cs[-1]
+        sidx, pinv, out = c['src'].idx, c['pinv'], c['out']
+        vc.cut('sorted(successors): every member of the set occurs in the sorted list, at position pinv(idx(x))',
+               th.forall_nodes(lambda x: z3.Implies(c['src'].mem(x), z3.And(pinv(sidx(x)) >= 0, pinv(sidx(x)) < c['n'], out.elt(pinv(sidx(x))).t == x))))
+        nn = _as_list(getattr(l, r.new))
+        explored = getattr(l, r.explored)
+        w = getattr(l, r.top).t
+        vc.cut('no new node found => every successor (in G) of the node on top of the stack is explored',
+               z3.Implies(nn.n == 0, th.forall_nodes(lambda y: z3.Implies(g.edge(w, y), explored.mem(y)))))
 
     def _ghost1(self, s, l0, l1):
         """order.append(w) happened in this iteration iff the length grew by one: the recorded position of that node is the old length"""
@@ -1266,7 +1295,7 @@ class SortDFS(C02Graph):
                   snapshot=lambda s, l: dict(explored=getattr(l, s.r.explored).mem), ghost_step=self._ghost1,
                   at_head=lambda s, l: dict(n=getattr(l, s.r.order).n))
         L1.rebind = (r.order, r.fringe)
-        L2 = Loop(inv=self._inv2, fresh={r.new: _fresh_names('new')})
+        L2 = Loop(inv=self._inv2, fresh={r.new: _fresh_names('new')}, on_exit=self._exit2)
         L2.rebind = (r.new,)
         return {0: L0, 1: L1, 2: L2}
 
@@ -1278,8 +1307,9 @@ class SortDFS(C02Graph):
         order = getattr(head, r.order)
         idx = order.ghost
         n = result.n
-        pos = lambda x: n - 1 - idx(x)
+        pos = (lambda x: idx(x)) if self.reverse else (lambda x: n - 1 - idx(x))      # witness of "x occurs in the result at ..." (proof hint; every clause below also states at(pos(x)) == x)
         at = lambda i: result.elt(i).t
+        before = (lambda u, v: pos(v) < pos(u)) if self.reverse else (lambda u, v: pos(u) < pos(v))
         # ghost step (proved as an obligation of its own, then used): a consequence of sorted()'s contract for the FIRST sorted() call, the roots -
         # every member x of the sorted set sits at position pinv(idx(x)) of the sorted list
         srt = s.vc.libcalls.get('sorted')
@@ -1291,6 +1321,9 @@ class SortDFS(C02Graph):
         return [('the result has one entry per explored node', n == order.n),
                 ('every node of G occurs in the result', th.forall_nodes(lambda x: z3.Implies(g.node(x), z3.And(pos(x) >= 0, pos(x) < n, at(pos(x)) == x)))),
                 ('every entry is a node of G and occurs once (its position is determined by the node)', forall_range(0, n, lambda i: z3.And(g.node(at(i)), pos(at(i)) == i), 'i')),
+                ('TOPOLOGICAL (reverse=True: every edge (u, v) of G has u AFTER v in the result)' if self.reverse else
+                 'TOPOLOGICAL (every edge (u, v) of G has u BEFORE v in the result: parents are executed first)',
+                 th.forall_nodes(lambda u, v: z3.Implies(g.edge(u, v), z3.And(pos(u) >= 0, pos(u) < n, pos(v) >= 0, pos(v) < n, at(pos(u)) == u, at(pos(v)) == v, before(u, v))), 2)),
                 ('the graph is not modified', same_structure(th, g, s.G.snap()))]
 
 
@@ -1345,7 +1378,7 @@ CONTRACTS = [RSLoad('int-cache'), RSLoad('int-nocache'), RSLoad('global'), RSLoa
              LoadData(), PoolLoad('pool'), PoolLoad('no-pool'), Submit('override'), Submit('no-override'), Compute(),
              ReadsFrame('elfi/executor.py::nx_constant_topological_sort', SORT_ALLOWED),
              ReadsFrame('elfi/executor.py::Executor.get_execution_order', EXEC_ALLOWED, ('nx_constant_topological_sort',)),
-             SortDFS(), CacheFrame(), CacheHitLemma(), FreshContextFrame(), RngFrame(), NameOrder()]
+             SortDFS(), SortDFS(reverse=True), CacheFrame(), CacheHitLemma(), FreshContextFrame(), RngFrame(), NameOrder()]
 
 TRUSTED_BASE = ['pyvc engine: proxies, path forking, loop cutting, instrumenter rewrites (see pyvc/README.md)',
                 'pyvc.nxspec: model of networkx.DiGraph / dict heap / sets (sanity-tested on the installed networkx every run); DiGraph(G) = shallow copy that SHARES values such as graph["outputs"]',
